@@ -137,6 +137,20 @@ func vmCall(names ...string) VM {
 	}
 }
 
+// vmCallResult matches result #idx of a call to one of the named callees (idx 0 also matches a
+// single-result call).
+func vmCallResult(idx int, names ...string) VM {
+	return func(v ssa.Value) bool {
+		v = strip(v)
+		if e, ok := v.(*ssa.Extract); ok {
+			c, ok := e.Tuple.(*ssa.Call)
+			return ok && e.Index == idx && nameMatches(calleeName(&c.Call), names...)
+		}
+		c, ok := v.(*ssa.Call)
+		return ok && idx == 0 && nameMatches(calleeName(&c.Call), names...)
+	}
+}
+
 // vmField matches a load of field `field` of struct type whose qualified name ends with typ.
 func vmField(typ, field string) VM {
 	return func(v ssa.Value) bool {
